@@ -55,6 +55,9 @@ def run(ctx):
     if tf:
         proof["problems"].append("translator could not translate: %s" % tf)
     rng = ctx.rng
+    # block-level correspondence of the directory model the lookup / duplicate theorems are about
+    from . import chaincorr
+    chaincorr.run(ctx, 8 if ctx.tier == "quick" else 200)
     # (b) leaf level
     lines = []
     for c in range(256):
